@@ -26,7 +26,8 @@ ASSUMPTIONS = [
     'REF (vt/ref.py) is the documented semantics; executions passing through a corner the docs leave open '
     '(flags: none-valued-call, empty/valueless-iteration, name-over-valueless, rebind-open-list, nested-override) '
     'are compared on accept/reject and consumed length only',
-    'patterns are drawn from a regex family without backreferences and with <=1 capturing group',
+    'patterns are drawn from a regex family without backreferences and with <=1 capturing group (which may take no part '
+    'in the match: the documented re.findall() reading gives the empty string)',
     'the object construction route (tatsu.peg node classes) builds the same model as compiling the text; a sample '
     'of cases goes through tatsu.compile(text) instead',
 ]
@@ -37,7 +38,7 @@ FLOORS = {
               'kind:Choice': 50, 'kind:LA': 50, 'kind:NLA': 50, 'kind:Named': 50, 'kind:NamedList': 50,
               'kind:Over': 50, 'kind:Const': 50, 'kind:Void': 50, 'kind:EOF': 50, 'kind:Dot': 50,
               'kind:SkipTo': 50, 'kind:Empty': 50, 'kind:Call': 50, 'kind:Tok': 50, 'kind:Pat': 50,
-              'kind:Group': 50, 'kind:Seq': 50, 'kind:AssocJoin': 20, 'texts_with_unicode_spaces': 1500, 'textroute_cases': 100, 'sugar:include': 100, 'sugar:based_rule': 100, 'sugar:override_rule': 100, 'default_start_cases': 800},
+              'kind:Group': 50, 'kind:Seq': 50, 'kind:AssocJoin': 20, 'texts_with_unicode_spaces': 1500, 'textroute_cases': 100, 'sugar:include': 100, 'sugar:based_rule': 100, 'sugar:override_rule': 100, 'default_start_cases': 800, 'wide_cases': 5000, 'kind:PatAbsentGroup': 200, 'kind:TokBeforeUnderscore': 60, 'kind:TokGuarded': 200},
     'thorough': {'accepted_unflagged': 400000, 'textroute_cases': 1000},
 }
 
@@ -217,7 +218,17 @@ def run_random(desc, acc):
     for i in range(desc['n']):
         rng = random.Random(h64('C01', desc['seed'], desc['shard'], i))
         F = feature_set(rng)
-        g = G.gen_grammar(rng, F, max_rules=5 if rng.random() < 0.3 else 3, pats=list(G.PATS))
+        pats = list(G.PATS)
+        alphabet = 'abc ,'
+        wide = i % 4 == 3
+        if wide:
+            # token texts and separators at the edge of the name guard, patterns whose group may stay out of the match
+            F['toks'] = rng.sample(G.WIDE_TOKS, 3) + rng.sample(G.TOKS, 1)
+            F['seps'] = [',', '_', '-', 'a']
+            pats = pats[:3] + rng.sample(list(G.GROUP_PATS), 3)
+            alphabet = 'abc ,_1-\u00e9'
+            acc.count('wide_grammars')
+        g = G.gen_grammar(rng, F, max_rules=5 if rng.random() < 0.3 else 3, pats=pats)
         if rng.random() < 0.2:
             g = add_sugar(rng, g, F, acc)
         route = 'text' if i % desc['text_every'] == 0 else 'object'
@@ -234,7 +245,9 @@ def run_random(desc, acc):
                 continue
             if route == 'text':
                 acc.count('textroute_cases')
-            texts = G.gen_inputs(rng, g, start, desc['inputs'])
+            texts = G.gen_inputs(rng, g, start, desc['inputs'], alphabet)
+            if wide:
+                acc.count('wide_cases', len(texts))
             if 'EOL' not in L.grammar_kinds(g):
                 # the documented default whitespace is the regex \s+ on str: every Unicode space, not only the ASCII ones
                 texts = [unicode_spaces(rng, t) if rng.random() < 0.15 else t for t in texts]
